@@ -273,6 +273,14 @@ def check(run):
             run.violation(bad[0], bad[1], bad[2], {"failing_input": {"threads": T, "calls": c, "ops": ops, "schedule": ",".join(map(str, s["ids"]))},
                                                    "mode": "force", "threads": T, "calls": c, "ops": ops, "schedule": s["ids"], "kinds": s["kinds"], "counts": {str(a): b for a, b in s["counts"].items()},
                                                    "ini": INI_MAIN.decode(), "stderr": err})
+    # ---------------------------------------------------------------- non-thread-safe build: single-threaded use only
+    nts = build_prod(run, ts=False)
+    ini_nts = b'[snoopy]\noutput = file:@D@/out.log\nmessage_format = "-|%{tid_kernel}|%{cmdline}|%{filename}"\n'
+    rn = run_mt(run, nts, "stress", 1, 3, "-", ini_nts, "nts")
+    badn = ("sched:caller-died:%s" % rn["status"], "crash", "status %s: %s" % (rn["status"], rn["stderr"][-300:])) if rn["status"] != 0 else check_records(rn, 1, 3)
+    if badn:
+        run.violation("nts-" + badn[0], badn[1], "non-thread-safe build, one thread, three calls: " + badn[2],
+                      {"failing_input": {"mode": "stress", "build": "nts", "threads": 1, "calls": 3}, "mode": "stress-nts", "threads": 1, "calls": 3, "ini": ini_nts.decode()})
     # ---------------------------------------------------------------- search: ThreadSanitizer on forced schedules and under stress
     tlib, texe = build_tsan(run)
     ops_w, _, _ = calibrate(run, lib, INI_WIDE, "calib-wide")
@@ -328,7 +336,7 @@ def check(run):
     if not ok and not new_violations(run):
         run.violation("proof:%s" % failed, "proof", "proof obligation no longer checks: %s\n%s" % (failed, log[-1500:]), {"theorem": failed, "coq_log": log[-3000:]})
     run.coverage.update({
-        "evaluations": len(dcases) + nrun + len(tres) + nstress,
+        "evaluations": len(dcases) + nrun + len(tres) + nstress + 3,
         "distinct_nontrivial": len(set(dcases)) + len(set((T, c, tuple(s["ids"])) for (T, c, s) in plans)) + len(tres),
         "rule": "function level: random push/remove(first, last, middle, NULL)/failed-allocation sequences of 1..80 operations on the real list.c; "
                 "system level: every schedule of 2 threads x 1 call with <= %d preemptions at lock boundaries (model-enumerated), seeded samples for 2..4 threads x 1..3 calls, "
